@@ -132,6 +132,43 @@ CHECKS['C04'] = {
     'level_note': 'Trusted: gcc/clang+ASan, the canary allocator shim installed through a_alloc, host qsort/bsearch. Not covered: more than N elements, element sizes other than those listed.',
 }
 
+
+def lists_job(kind, name, n, siz=4, siz2=0, keys=2, san='', faults=0, deadline=100):
+    args = ['--kind', kind, '--n', n, '--siz', siz, '--siz2', siz2, '--keys', keys, '--faults', faults, '--deadline', deadline]
+    return {'name': name, 'build_name': 'lists%s' % ('-asan' if san else ''), 'harness': ['harness/lists.cpp'],
+            'repo_srcs': ['src/que.c', 'src/a.c'], 'san': san, 'args': args}
+
+
+def c05_jobs(tier):
+    if tier == 'quick':
+        return [lists_job('list', 'list-n7', 7), lists_job('list', 'list-asan-n6', 6, san='asan'),
+                lists_job('slist', 'slist-n7', 7), lists_job('slist', 'slist-asan-n6', 6, san='asan'),
+                lists_job('que', 'que-n6-siz4-9', 6, 4, 9, 2), lists_job('que', 'que-n5-siz1-3-3keys', 5, 1, 3, 3),
+                lists_job('que', 'que-n11-siz8-pool-growth', 11, 8, 0, 1),
+                lists_job('que', 'que-asan-n5-siz4-9', 5, 4, 9, 2, san='asan'), lists_job('que', 'que-asan-n10-pool-growth', 10, 3, 0, 1, san='asan')]
+    D = 2400
+    return [lists_job('list', 'list-n9', 9, deadline=D), lists_job('list', 'list-asan-n8', 8, san='asan', deadline=D),
+            lists_job('slist', 'slist-n10', 10, deadline=D), lists_job('slist', 'slist-asan-n9', 9, san='asan', deadline=D),
+            lists_job('que', 'que-n8-siz4-9', 8, 4, 9, 2, deadline=D), lists_job('que', 'que-n6-siz1-3-3keys', 6, 1, 3, 3, deadline=D),
+            lists_job('que', 'que-n18-siz8-pool-growth', 18, 8, 16, 1, deadline=D), lists_job('que', 'que-n10-siz2-2keys-pool-growth', 10, 2, 0, 2, deadline=D),
+            lists_job('que', 'que-asan-n7-siz4-9', 7, 4, 9, 2, san='asan', deadline=D), lists_job('que', 'que-asan-n10-2keys-pool-growth', 10, 3, 0, 2, san='asan', deadline=D)]
+
+
+CHECKS['C05'] = {
+    'title': 'linked lists and the queue keep sequence and ring integrity', 'level': 'model_checking', 'jobs': c05_jobs,
+    'rule': ('explicit-state BFS to a fixpoint over the real inline list primitives (include/a/list.h, slist.h) and src/que.c. Intrusive lists: nodes are anonymous, so a state is the pair of '
+             'ring/list lengths; from every state EVERY primitive is applied at EVERY position (add_next/prev at head and every node, del_node/next/prev, rot, set_node, mov_next/prev of the other ring + re-init, '
+             'swap_node of every non-adjacent pair and of a node with itself within and across rings, swap_/set_/del_/add_ of every section pair) and the forward walk, the backward walk and link symmetry are compared '
+             'with an abstract sequence of node identities. Queue: a state is (element size, value sequence, pool cursor, pool capacity); every push/pull/insert/remove index class (0..num, SIZE_MAX), push_sort, sort_fore/back, '
+             'element swap of every non-adjacent pair, whole-queue swap with an empty and a non-empty queue, drop, setz up and down, at() for every index -num-1..num, fore/back, all four loop macros; contents, addresses of '
+             'enqueued elements, freshness of handed-out nodes, pool distinctness and the allocator ledger are checked after every call. Adjacent swaps are excluded by the statement itself.'),
+    'assumptions': ['nodes of the intrusive lists are interchangeable (the primitives use addresses only for identity)', 'bounds per job: N nodes / elements; two rings, two singly linked lists, one queue plus a second one for whole-queue swap',
+                    'mov_next/mov_prev are driven with a non-empty source ring followed by the documented re-initialisation of the emptied head'],
+    'design_ref': '§4.C05', 'technique': 'explicit-state BFS to a fixpoint over the real list primitives and que.c against abstract sequences, canary allocator + ASan, API-replay conformance of every state',
+    'level_text': 'Every list primitive at every position of rings with up to N nodes (7 quick, 9 thorough) and every queue operation with every index class from every reachable queue state (up to 6-11 elements quick, 8-18 thorough, crossing the 8->16 pool growth) is executed on the real code and compared with abstract sequences, including link symmetry, address stability and recycled-node freshness; fixpoint, so histories of any length.',
+    'level_note': 'Trusted: gcc/clang+ASan, the allocator shim. Not covered: more than N nodes; adjacent swaps (excluded by the property).',
+}
+
 # ---------------------------------------------------------------- manifest texts
 CHECKS['C01'].update({
     'design_ref': '§4.C01', 'technique': 'explicit-state BFS to a fixpoint over the real src/avl.c (size-bounded, unbounded history length), lock-step reference set, API-replay conformance of every state',
